@@ -57,7 +57,8 @@ Ltac flag_tac :=
   let E := fresh "E" in
   intro E; first [ discriminate E | split; reflexivity | use_flag E | idtac ].
 Ltac kids := repeat first [apply Forall_cons | apply Forall_nil].
-Ltac kid_solve := wf_goal; repeat match goal with |- _ /\ _ => split end; try exact I; try assumption; try ring; try exact Hrt; try flag_tac.
+Ltac kid_solve := wf_goal; repeat match goal with |- _ /\ _ => split end; try exact I; try assumption; try ring; try exact Hrt; try flag_tac;
+  try (match goal with H : _ = 1 |- _ = 1 => rewrite <- H; ring end).
 
 (* children of a well-formed gate are well-formed *)
 Lemma decomp_wf : forall g l, wf g -> decomp g = Some l -> Forall (fun c => wf (cg K c)) l.
@@ -71,6 +72,290 @@ Proof.
     wf_red W. destruct W as (_ & (A & B & _) & (Z1 & Z2)). kids; kid_solve.
   - (* sMZ *) destruct pin as [ci si zi], pex as [ce se ze].
     wf_red W. destruct W as (_ & (A & B & _) & (Z1 & Z2)). kids; kid_solve.
-    all: match goal with |- ?G => idtac G end.
-Abort.
+  - (* S2 *) destruct r as [ch sh hz], phi as [c s z].
+    wf_red W. destruct W as (_ & (A & B & _) & (Z1 & Z2)). kids; kid_solve.
+  - (* CX *) destruct s as [r z], wr as [ch sh hz], wth as [c s_ zt].
+    wf_red W. destruct W as (_ & (A & B & _) & (Z1 & Z2 & Z3)). kids; kid_solve.
+  - (* CZ *) destruct s as [r z], wr as [ch sh hz], wth as [c s_ zt].
+    wf_red W. destruct W as (_ & (A & B & E1 & E2 & E3 & _) & (Z1 & Z2 & Z3)). kids; kid_solve.
+  - (* F *) kids; kid_solve.
+Qed.
+
+Lemma gsymp_prim_children : forall l, Forall (fun c => wf (cg K c)) l ->
+  Forall (fun c => match kind_of K (cg K c) with kD | kS | kR | kBS | kCX => True | _ => False end) l ->
+  Forall (fun c => gsymp (cg K c)) l.
+Proof.
+  induction 1 as [|c l W Wl IH]; intro P; [constructor|].
+  inversion P as [|? ? Pc Pl]; subst. constructor; [|apply IH; exact Pl].
+  destruct c as [g ws d]. simpl in *. destruct g; try contradiction.
+  - apply gsymp_D; assumption.
+  - apply gsymp_S; assumption.
+  - apply gsymp_R; assumption.
+  - apply gsymp_BS; assumption.
+  - apply gsymp_CX; assumption.
+Qed.
+
+Theorem gsymp_all : forall g, wf g -> gsymp g.
+Proof.
+  intros g W.
+  assert (viadec : forall l, decomp g = Some l ->
+            Forall (fun c => match kind_of K (cg K c) with kD | kS | kR | kBS | kCX => True | _ => False end) l -> gsymp g).
+  { intros l H P. unfold ProofsSeq.gsymp. rewrite <- (decomp_sound K Kring Hrt Hs2h g l W H).
+    apply symp_sem_seq; [exact Kring|]. rewrite Forall_map.
+    eapply Forall_impl; [|apply (gsymp_prim_children l (decomp_wf g l W H) P)].
+    intros c Hc. apply doc_cmd_symp; assumption. }
+  destruct g.
+  - apply gsymp_D; assumption.
+  - apply gsymp_X; assumption.
+  - apply gsymp_Z; assumption.
+  - apply gsymp_S; assumption.
+  - apply gsymp_R; assumption.
+  - apply gsymp_P; assumption.
+  - apply gsymp_BS; assumption.
+  - eapply viadec; [reflexivity|]. repeat constructor.
+  - eapply viadec; [reflexivity|]. repeat constructor.
+  - apply gsymp_S2; assumption.
+  - apply gsymp_CX; assumption.
+  - apply gsymp_CZ; assumption.
+  - apply gsymp_F; assumption.
+  - destruct W as (Gs & _). contradiction.
+Qed.
+
+(* ---- Gate.decompose: reverse the sequence and flip every flag ---- *)
+Theorem decompose_local_sound : forall g dag l, wf g -> decompose_local K g dag = Some l ->
+  sem_seq (map doc_cmd l) = if dag then ainv (doc g) else doc g.
+Proof.
+  intros g dag l W H. unfold decompose_local in H.
+  destruct (decomp g) as [seq|] eqn:D; [|discriminate]. injection H as <-.
+  pose proof (decomp_sound K Kring Hrt Hs2h g seq W D) as S.
+  destruct dag; [|exact S].
+  rewrite (sem_seq_dagger K Kring), S; [reflexivity|].
+  eapply Forall_impl; [|apply (decomp_wf g seq W D)]. intros c Hc. apply gsymp_all; exact Hc.
+Qed.
+
+(* ---- wires ---- *)
+Definition ws_ok (ws : list nat) : Prop := ws = [O] \/ ws = [S O] \/ ws = [O; S O] \/ ws = [S O; O].
+Definition child_w (n : nat) (w : list nat) : Prop := w = [O] \/ (n = 2 /\ (w = [S O] \/ w = [O; S O])).
+
+Lemma wires_ok_ws : forall c : cmd, wires_ok K c -> ws_ok (cw K c).
+Proof.
+  intros [g ws d]. unfold wires_ok, ws_ok. simpl.
+  destruct ws as [|a [|b [|x ws]]]; try contradiction.
+  - intros [->| ->]; auto.
+  - intros [[-> ->]|[-> ->]]; auto.
+Qed.
+Lemma ws_ok_wires : forall g ws d, ws_ok ws -> wires_ok K (mkCmd K g ws d).
+Proof. intros g ws d [->|[->|[->| ->]]]; unfold wires_ok; simpl; auto. Qed.
+
+Lemma decomp_wires : forall g l, decomp g = Some l ->
+  Forall (fun c => child_w (arity K g) (cw K c) /\ length (cw K c) = arity K (cg K c)) l.
+Proof.
+  intros g l H. destruct g; try discriminate H; injection H as <-; kids;
+    (split; [unfold child_w; simpl; auto | reflexivity]).
+Qed.
+
+Lemma place_sub : forall ws w (X : aff), ws_ok ws -> child_w (length ws) w ->
+  place (sub_wires ws w) X = place ws (place w X).
+Proof.
+  intros ws w X [->|[->|[->| ->]]] [->|[E [->| ->]]]; simpl in *; try discriminate E; try reflexivity;
+    symmetry; apply (aswap_aswap K Kring).
+Qed.
+Lemma sub_ok : forall ws w, ws_ok ws -> child_w (length ws) w -> ws_ok (sub_wires ws w).
+Proof.
+  intros ws w [->|[->|[->| ->]]] [->|[E [->| ->]]]; simpl in *; try discriminate E; unfold ws_ok; auto.
+Qed.
+
+Lemma doc_cmd_rewire : forall ws (c : cmd), ws_ok ws -> child_w (length ws) (cw K c) ->
+  doc_cmd (rewire K ws c) = place ws (doc_cmd c).
+Proof.
+  intros ws [g w d] Hws Hc. unfold Model.doc_cmd, Model.rewire. simpl in *. apply place_sub; assumption.
+Qed.
+
+Lemma flip_fields : forall c : cmd, cg K (flip K c) = cg K c /\ cw K (flip K c) = cw K c.
+Proof. intros [g w d]; split; reflexivity. Qed.
+
+Lemma decompose_local_kids : forall g dag l, wf g -> decompose_local K g dag = Some l ->
+  Forall (fun c => wf (cg K c) /\ child_w (arity K g) (cw K c) /\ length (cw K c) = arity K (cg K c)) l.
+Proof.
+  intros g dag l W H. unfold decompose_local in H.
+  destruct (decomp g) as [seq|] eqn:D; [|discriminate]. injection H as <-.
+  assert (B : Forall (fun c => wf (cg K c) /\ child_w (arity K g) (cw K c) /\ length (cw K c) = arity K (cg K c)) seq).
+  { pose proof (decomp_wf g seq W D) as A. pose proof (decomp_wires g seq D) as B.
+    rewrite Forall_forall in *. intros c Hc. destruct (B c Hc). auto. }
+  destruct dag; [|exact B].
+  apply Forall_rev. rewrite Forall_map. eapply Forall_impl; [|exact B].
+  intros c Hc. destruct (flip_fields c) as [-> ->]. exact Hc.
+Qed.
+
+Theorem decompose_cmd_sound : forall (c : cmd) l, cmd_ok K c -> decompose_cmd K c = Some l ->
+  sem_seq (map doc_cmd l) = doc_cmd c /\ Forall (cmd_ok K) l.
+Proof.
+  intros [g ws d] l (W & Wo & Len) H. pose proof (wires_ok_ws _ Wo) as Hws. clear Wo.
+  unfold decompose_cmd in H. simpl in *.
+  destruct (decompose_local K g d) as [seq|] eqn:D; [|discriminate]. injection H as <-.
+  pose proof (decompose_local_kids g d seq W D) as Kd. rewrite <- Len in Kd.
+  split.
+  - rewrite map_map.
+    rewrite (map_ext_in _ (fun c => place ws (doc_cmd c))).
+    + rewrite <- (map_map doc_cmd (place ws)), (sem_seq_place K Kring).
+      rewrite (decompose_local_sound g d seq W D). unfold Model.doc_cmd. simpl. reflexivity.
+    + intros c Hc. rewrite Forall_forall in Kd. destruct (Kd c Hc) as (_ & Cw & _).
+      apply doc_cmd_rewire; assumption.
+  - rewrite Forall_map. eapply Forall_impl; [|exact Kd].
+    intros [g' w' d'] (W' & Cw & L'). simpl in *.
+    refine (conj W' (conj (ws_ok_wires g' _ d' (sub_ok _ _ Hws Cw)) _)).
+    simpl. unfold sub_wires. rewrite map_length. exact L'.
+Qed.
+
+(* ---- Compiler.decompose ---- *)
+Lemma res_app_ok : forall a b out, res_app K a b = Ok K out ->
+  exists x y, a = Ok K x /\ b = Ok K y /\ out = x ++ y.
+Proof.
+  intros [x| | |] [y| | |] out H; simpl in H; try discriminate H. injection H as <-. eauto.
+Qed.
+
+Theorem compile_sound : forall fuel tb seq out, Forall (cmd_ok K) seq -> compile K fuel tb seq = Ok K out ->
+  sem_seq (map doc_cmd out) = sem_seq (map doc_cmd seq)
+  /\ Forall (cmd_ok K) out
+  /\ Forall (fun c => t_dec tb (kind_of K (cg K c)) = false /\ t_prim tb (kind_of K (cg K c)) = true) out.
+Proof.
+  induction fuel as [|f IH]; intros tb seq out Hs H; [discriminate H|].
+  revert out H. induction Hs as [|c seq Hc Hseq IHs]; intros out H.
+  - simpl in H. injection H as <-. simpl. repeat split; constructor.
+  - simpl in H. apply res_app_ok in H. destruct H as (x & y & Hx & Hy & ->).
+    destruct (IHs y Hy) as (Sy & Oy & Py).
+    assert (Hd : sem_seq (map doc_cmd x) = doc_cmd c /\ Forall (cmd_ok K) x
+                 /\ Forall (fun c => t_dec tb (kind_of K (cg K c)) = false /\ t_prim tb (kind_of K (cg K c)) = true) x).
+    { destruct (t_dec tb (kind_of K (cg K c))) eqn:Td.
+      - destruct (decompose_cmd K c) as [sub|] eqn:Dc; [|discriminate Hx].
+        destruct (decompose_cmd_sound c sub Hc Dc) as (Ss & Os).
+        destruct (IH tb sub x Os Hx) as (Sx & Ox & Px). rewrite Sx, Ss. auto.
+      - destruct (t_prim tb (kind_of K (cg K c))) eqn:Tp; [|discriminate Hx].
+        injection Hx as <-. simpl. rewrite (sem_seq_one K Kring). repeat split; constructor; auto. }
+    destruct Hd as (Sx & Ox & Px).
+    rewrite !map_app. cbn [map]. rewrite (sem_seq_app K Kring), (sem_seq_cons K Kring), Sx, Sy.
+    repeat split; try (apply Forall_app; split; assumption). 
+Qed.
+
+(* ---- Gate.apply: the first-parameter conventions ---- *)
+Ltac open_all :=
+  lazy beta iota zeta delta
+    [Alg.acomp Alg.aid Alg.ainv Alg.aswap Alg.mmul Alg.sinv Alg.mid Alg.mvec Alg.vadd Alg.vopp Alg.mtr
+     Alg.vrow Alg.dot Alg.col0 Alg.col1 Alg.col2 Alg.col3 Alg.v0 Alg.omega Alg.momega Alg.swapm
+     Alg.one Alg.m_rot Alg.m_sq Alg.m_shear Alg.m_bs Alg.m_s2 Alg.m_cx Alg.m_cz Alg.m_uni Alg.a_lin Alg.a_disp
+     Alg.lin Alg.off Alg.r0 Alg.r1 Alg.r2 Alg.r3 Alg.c0 Alg.c1 Alg.c2 Alg.c3
+     Model.doc Model.neg_p0 Model.p0z Model.hf Model.hneg Model.aneg Model.rneg
+     Model.a_zero Model.a_quarter
+     Model.co Model.si Model.az Model.ch Model.sh Model.hz Model.rv Model.rz].
+Ltac split_eq := repeat first [apply aff_eq | apply M4_eq | apply V4_eq].
+
+Lemma neg_is_inverse : forall g, conv_prim (kind_of K g) = true -> doc (neg_p0 K g) = ainv (doc g).
+Proof.
+  intros g H. destruct g; try discriminate H.
+  - destruct r, phi. open_all. split_eq; ring.
+  - destruct r, phi. open_all. split_eq; ring.
+  - destruct th. open_all. split_eq; ring.
+  - destruct th, ph. open_all. split_eq; ring.
+  - destruct r, phi. open_all. split_eq; ring.
+Qed.
+Lemma zero_is_identity : forall g, wf g -> conv_prim (kind_of K g) = true -> p0z K g = true -> doc g = aid.
+Proof.
+  intros g W H Z. destruct g; try discriminate H.
+  - destruct r as [r z], phi as [c s zp]. wf_red W. destruct W as (_ & _ & (F & _)). simpl in Z.
+    rewrite (F Z). open_all. split_eq; ring.
+  - destruct r as [ch sh z], phi as [c s zp]. wf_red W. destruct W as (_ & _ & (F & _)). simpl in Z.
+    destruct (F Z) as [-> ->]. open_all. split_eq; ring.
+  - destruct th as [c s z]. wf_red W. destruct W as (_ & _ & F). simpl in Z.
+    destruct (F Z) as [-> ->]. open_all. split_eq; ring.
+  - destruct th as [c s z], ph as [cp sp zp]. wf_red W. destruct W as (_ & _ & (F & _)). simpl in Z.
+    destruct (F Z) as [-> ->]. open_all. split_eq; ring.
+  - destruct r as [ch sh z], phi as [c s zp]. wf_red W. destruct W as (_ & _ & (F & _)). simpl in Z.
+    destruct (F Z) as [-> ->]. open_all. split_eq; ring.
+Qed.
+
+Theorem apply_conv : forall c : cmd, wf (cg K c) -> conv_prim (kind_of K (cg K c)) = true ->
+  apply_sem K c = doc_cmd c.
+Proof.
+  intros [g ws d] W H. unfold Model.apply_sem, Model.doc_cmd. simpl in *.
+  destruct (p0z K g) eqn:Z.
+  - rewrite (zero_is_identity g W H Z). destruct d; rewrite ?(ainv_id K Kring), (place_id K Kring); reflexivity.
+  - destruct d; [rewrite (neg_is_inverse g H)|]; reflexivity.
+Qed.
+
+(* a compiler whose applied primitives all obey the conventions runs every program as documented *)
+Theorem compile_apply_sound : forall fuel tb seq out,
+  (forall k, t_dec tb k = false -> t_prim tb k = true -> (forall n, k <> kO n) -> conv_prim k = true) ->
+  Forall (cmd_ok K) seq -> compile K fuel tb seq = Ok K out ->
+  sem_seq (map (apply_sem K) out) = sem_seq (map doc_cmd seq).
+Proof.
+  intros fuel tb seq out T Hs H.
+  destruct (compile_sound fuel tb seq out Hs H) as (S & O & P).
+  rewrite <- S. f_equal. apply map_ext_in. intros c Hc.
+  rewrite Forall_forall in O, P. destruct (O c Hc) as (W & _). destruct (P c Hc) as (Pd & Pp).
+  apply apply_conv; [exact W|]. apply T; try assumption.
+  intros n E. destruct W as (G & _). destruct (cg K c); try discriminate E. exact G.
+Qed.
+
+Lemma tb_gaussian_conv : forall k, t_dec tb_gaussian k = false -> t_prim tb_gaussian k = true ->
+  (forall n, k <> kO n) -> conv_prim k = true.
+Proof. intros k; destruct k; simpl; intros; try discriminate; reflexivity. Qed.
+Lemma tb_bosonic_conv : forall k, t_dec tb_bosonic k = false -> t_prim tb_bosonic k = true ->
+  (forall n, k <> kO n) -> conv_prim k = true.
+Proof. intros k; destruct k; simpl; intros; try discriminate; reflexivity. Qed.
+
+(* ---- fuel: the decomposition table has depth 3 (CZ -> CX -> S/BS) ---- *)
+Definition depth (g : gate) : nat :=
+  match g with
+  | CZgate _ _ _ _ => 3
+  | Xgate _ _ | Zgate _ _ | Pgate _ _ _ _ _ | MZgate _ _ _ | sMZgate _ _ _ | S2gate _ _ _ | CXgate _ _ _ _ | Fouriergate _ => 2
+  | _ => 1
+  end.
+Lemma decomp_depth : forall g l, decomp g = Some l -> Forall (fun c => depth (cg K c) < depth g) l.
+Proof.
+  intros g l H. destruct g; try discriminate H; injection H as <-; kids; simpl; lia.
+Qed.
+Lemma decompose_cmd_depth : forall (c : cmd) sub, decompose_cmd K c = Some sub ->
+  Forall (fun x => depth (cg K x) < depth (cg K c)) sub.
+Proof.
+  intros [g ws d] sub H. unfold decompose_cmd, decompose_local in H. simpl in *.
+  destruct (decomp g) as [seq|] eqn:D; [|discriminate]. injection H as <-.
+  pose proof (decomp_depth g seq D) as A.
+  rewrite Forall_map.
+  assert (B : Forall (fun x => depth (cg K x) < depth g) (if d then rev (map (flip K) seq) else seq)).
+  { destruct d; [|exact A]. apply Forall_rev. rewrite Forall_map. eapply Forall_impl; [|exact A].
+    intros x Hx. destruct (flip_fields x) as [-> _]. exact Hx. }
+  eapply Forall_impl; [|exact B]. intros [g' w' d'] Hx. exact Hx.
+Qed.
+Lemma depth_pos : forall g, 1 <= depth g.
+Proof. destruct g; simpl; lia. Qed.
+Lemma depth_le3 : forall g, depth g <= 3.
+Proof. destruct g; simpl; lia. Qed.
+
+Lemma compile_fuel : forall fuel tb seq, Forall (fun c => depth (cg K c) <= fuel) seq ->
+  compile K (S fuel) tb seq <> ErrFuel K.
+Proof.
+  induction fuel as [|f IH]; intros tb seq Hs.
+  - destruct seq as [|c seq]; [simpl; discriminate|].
+    inversion Hs as [|? ? Hc _]; subst. pose proof (depth_pos (cg K c)). lia.
+  - induction Hs as [|c seq Hc Hseq IHs]; [simpl; discriminate|].
+    change (compile K (S (S f)) tb (c :: seq)) with
+      (res_app K (if t_dec tb (kind_of K (cg K c)) then
+                    match decompose_cmd K c with None => ErrNotImpl K | Some sub => compile K (S f) tb sub end
+                  else if t_prim tb (kind_of K (cg K c)) then Ok K [c] else ErrCircuit K)
+                 (compile K (S (S f)) tb seq)).
+    assert (Hh : (if t_dec tb (kind_of K (cg K c)) then
+                    match decompose_cmd K c with None => ErrNotImpl K | Some sub => compile K (S f) tb sub end
+                  else if t_prim tb (kind_of K (cg K c)) then Ok K [c] else ErrCircuit K) <> ErrFuel K).
+    { destruct (t_dec tb (kind_of K (cg K c))).
+      - destruct (decompose_cmd K c) as [sub|] eqn:Dc; [|discriminate].
+        apply IH. eapply Forall_impl; [|apply (decompose_cmd_depth c sub Dc)]. intros x Hx. simpl in Hx. lia.
+      - destruct (t_prim tb (kind_of K (cg K c))); discriminate. }
+    destruct (if t_dec tb (kind_of K (cg K c)) then _ else _) as [x| | |]; try (exfalso; apply Hh; reflexivity);
+    destruct (compile K (S (S f)) tb seq) as [y| | |]; try (exfalso; apply IHs; reflexivity); simpl; discriminate.
+Qed.
+Theorem compile_terminates : forall tb seq, compile K 4 tb seq <> ErrFuel K.
+Proof.
+  intros. apply compile_fuel. rewrite Forall_forall. intros c _. apply depth_le3.
+Qed.
+
 End Drv.
